@@ -125,6 +125,36 @@ def result_assignments(body, blocks):
     return out
 
 
+def tail_delegates(fx, fn, depth=0, seen=None):
+    """fn and the local functions whose result it returns unchanged (`_0 = helper(..)`), transitively: a lookup split into
+    per-branch helpers is still one lookup"""
+    if seen is None:
+        seen = []
+    if fn is None or fn["id"] in [f["id"] for f in seen] or depth > 3:
+        return seen
+    seen.append(fn)
+    body = body_of(fn)
+    if body is None:
+        return seen
+    for b, t in body.calls():
+        p = callee_path(t["callee"])
+        if p not in fx.fns or t["dest"]["p"]:
+            continue
+        l = t["dest"]["l"]
+        ret = l == 0
+        if not ret:
+            # result copied to the return place
+            for bb in body.reach:
+                for st_ in body.stmts(bb):
+                    if st_["k"] == "assign" and st_["place"]["l"] == 0 and not st_["place"]["p"] and st_["rv"]["k"] == "use":
+                        pl = op_place(st_["rv"]["a"])
+                        if pl is not None and pl["l"] == l and not pl["p"]:
+                            ret = True
+        if ret:
+            tail_delegates(fx, fx.fns[p], depth + 1, seen)
+    return seen
+
+
 def run(fx, chk, tier):
     chk.rule("R-DEFAULT", "without a ctts table the rendering offset is the constant 0; without an stss table every sample is sync")
     chk.rule("R-COUNT", "non-fragmented sample count = stsz.sample_count")
@@ -143,11 +173,12 @@ def run(fx, chk, tier):
 
     # ---------------- R-DEFAULT
     for fn, field, want, label in ((fro, "ctts", ABSENT_DEFAULT["ctts"], "rendering offset 0"), (fsy, "stss", ABSENT_DEFAULT["stss"], "sync = true")):
-        body = body_of(fn)
-        sw = opt_field_switches(body, field)
+        sw = []
+        for f2 in tail_delegates(fx, fn):
+            sw += [(body_of(f2),) + x for x in opt_field_switches(body_of(f2), field)]
         if not chk.anchor("R-DEFAULT", "test of stbl.%s in %s" % (field, fn["name"]), sw):
             continue
-        for (b, none_t, some_t) in sw:
+        for (body, b, none_t, some_t) in sw:
             avoid = [some_t] if some_t is not None else []
             blocks = body.reachable_from(none_t, avoid=avoid)
             ras = result_assignments(body, blocks)
